@@ -116,8 +116,15 @@ func LayerConvertFunc(opts ...estargz.Option) converter.ConvertFunc {
 
 		// update diffID label
 		labelz[labels.LabelUncompressed] = blob.DiffID().String()
-		if err = w.Commit(ctx, n, "", content.WithLabels(labelz)); err != nil && !errdefs.IsAlreadyExists(err) {
-			return nil, err
+		if err = w.Commit(ctx, n, "", content.WithLabels(labelz)); err != nil {
+			if !errdefs.IsAlreadyExists(err) {
+				return nil, err
+			}
+			// The same blob is already in the content store (e.g. the input is already
+			// converted). Commit didn't touch its labels so record the diffID here.
+			if err := UpdateUncompressedLabel(ctx, cs, w.Digest(), blob.DiffID()); err != nil {
+				return nil, err
+			}
 		}
 		if err := w.Close(); err != nil {
 			return nil, err
@@ -158,4 +165,15 @@ func ConvertMediaTypeToGzip(mt string) string {
 		return mt + "+gzip"
 	}
 	return mt
+}
+
+// UpdateUncompressedLabel records diffID as the uncompressed digest label of the blob dgst
+// that already exists in the content store.
+func UpdateUncompressedLabel(ctx context.Context, cs content.Store, dgst digest.Digest, diffID digest.Digest) error {
+	info := content.Info{
+		Digest: dgst,
+		Labels: map[string]string{labels.LabelUncompressed: diffID.String()},
+	}
+	_, err := cs.Update(ctx, info, "labels."+labels.LabelUncompressed)
+	return err
 }
